@@ -312,6 +312,37 @@ Theorem C16_cg_error_monotone_3d : forall (sc : smooth_cfg) (sm : bool) (sh : sh
 Proof. exact cg_error_monotone3_history. Qed.
 Print Assumptions C16_cg_error_monotone_3d.
 
+(* ... and whenever the solver iterates at all (itmax >= 1, accepted grid, |D| >= EPS) from a surface that does not yet
+   solve the problem, the error STRICTLY decreases: integrate() always improves a non-solution. *)
+Theorem C16_cg_error_strict_decrease_2d : forall (sc : smooth_cfg) (sm : bool) (sh : shape2 (T:=R)) (st0 : state2 (T:=R))
+    (pre h : list ((Z * Z) * (R * R))) (itmax : nat) (tol : R) (x0 : Z * Z -> R) (err0 : R) (xs : Z * Z -> R),
+  (0 < nxg sh)%Z -> (0 < nyg sh)%Z -> wx sh <> 0%R -> wy sh <> 0%R -> Forall (fun e => in_grad2 sh (fst e)) h ->
+  let st := run2 Rops sc sm sh (set_div2 Rops sc sm sh (preload2 Rops st0 pre)) h in
+  let D := div_value2 Rops sc sm sh st in
+  shape_ok2 sh = true ->
+  (forall q, in_pmf2 sh q -> atimes2 Rops sh xs q = D q) ->
+  (cg_eps Rops <= l2norm Rops _ (all_ix2 sh) D)%R ->
+  (exists q, in_pmf2 sh q /\ (D q - atimes2 Rops sh x0 q)%R <> 0%R) ->
+  (err_norm2 _ (all_ix2 sh) (atimes2 Rops sh) xs (out_x _ (integrate2 Rops sh (S itmax) tol (dv2 st) x0 err0))
+   < err_norm2 _ (all_ix2 sh) (atimes2 Rops sh) xs x0)%R.
+Proof. exact cg_error_strict2_history. Qed.
+Print Assumptions C16_cg_error_strict_decrease_2d.
+
+Theorem C16_cg_error_strict_decrease_3d : forall (sc : smooth_cfg) (sm : bool) (sh : shape3 (T:=R)) (st0 : state3 (T:=R))
+    (pre h : list ((Z * Z * Z) * (R * R * R))) (itmax : nat) (tol : R) (x0 : Z * Z * Z -> R) (err0 : R) (xs : Z * Z * Z -> R),
+  (0 < mxg sh)%Z -> (0 < myg sh)%Z -> (0 < mzg sh)%Z -> vx sh <> 0%R -> vy sh <> 0%R -> vz sh <> 0%R ->
+  Forall (fun e => in_grad3 sh (fst e)) h ->
+  let st := run3 Rops sc sm sh (set_div3 Rops sc sm sh (preload3 Rops st0 pre)) h in
+  let D := div_value3 Rops sc sm sh st in
+  shape_ok3 sh = true ->
+  (forall q, in_pmf3 sh q -> atimes3 Rops sh xs q = D q) ->
+  (cg_eps Rops <= l2norm Rops _ (all_ix3 sh) D)%R ->
+  (exists q, in_pmf3 sh q /\ (D q - atimes3 Rops sh x0 q)%R <> 0%R) ->
+  (err_norm2 _ (all_ix3 sh) (atimes3 Rops sh) xs (out_x _ (integrate3 Rops sh (S itmax) tol (dv3 st) x0 err0))
+   < err_norm2 _ (all_ix3 sh) (atimes3 Rops sh) xs x0)%R.
+Proof. exact cg_error_strict3_history. Qed.
+Print Assumptions C16_cg_error_strict_decrease_3d.
+
 (* a Poisson problem with a solution (premise of the two theorems above): A (-b22) = b22 on the 2x2 grid *)
 Example C16_example_solution_exists : forall q, In q (all_ix2 sh22) -> atimes2 Rops sh22 (fun p => (0 + -1 * b22 p)%R) q = b22 q.
 Proof. exact b22_solution. Qed.
